@@ -39,8 +39,26 @@ pub fn exec_box(_ctx: &mut Ctx, t: &mut Toks) -> String {
                 .collect::<Vec<_>>()
                 .join(" ")
         }
-        op @ ("poly" | "polystale") => {
+        op @ ("poly" | "polystale" | "polyregen") => {
             let u = ubox(t);
+            if op == "polyregen" {
+                // the box carries a vertex cache generated under another geometry and `gen_vertices()` is called AGAIN after the
+                // fields changed: the polygon it now carries (what `intersection` / the metrics clip with) must be the current rectangle
+                let mut u = stale(&u);
+                u.gen_vertices();
+                let (c, s) = cs(&u);
+                // (`gen_vertices` generates for rotated boxes only: an axis-aligned box is asked for its polygon the usual way)
+                let p = match (u.angle, u.get_cached_vertices()) {
+                    (Some(_), Some(p)) => p.clone(),
+                    _ => u.get_vertices(),
+                };
+                let mut out = format!("{} {}", f64_tok(c), f64_tok(s));
+                for q in p.exterior().coords_iter().take(4) {
+                    out.push_str(&format!(" {} {}", f64_tok(q.x), f64_tok(q.y)));
+                }
+                out.push_str(&format!(" {} {}", f32_tok(u.area()), f32_tok(u.get_radius())));
+                return out;
+            }
             // `polystale`: the box carries a vertex cache generated under another geometry (gen_vertices, then the public
             // fields / rotate_mut changed): get_vertices, area and radius must depend on the current fields only
             let u = if op == "polystale" { stale(&u) } else { u };
